@@ -191,7 +191,8 @@ C06_succeeds(g, t, o) == Expected(g, o) => (o.ok /\ t # g)
 RoundIdx(r) == CASE r = "" -> 0 [] r = "preflop" -> 1 [] r = "flop" -> 2 [] r = "turn" -> 3 [] r = "river" -> 4 [] OTHER -> 99
 C06_streets(g, t, o) == RoundIdx(t.round) \in {RoundIdx(g.round), RoundIdx(g.round) + 1}
 C06_result(t) == (t.result # NULL) <=> (t.ev = "GameClosed")
-C06_closedIsFinal(g, t, o) == g.ev = "GameClosed" => (~o.ok /\ t = g)
+\* (re-hydrating the game is not an operation of the hand: it is what the harness / a backend does between operations)
+C06_closedIsFinal(g, t, o) == (g.ev = "GameClosed" /\ o.op # "Rehydrate") => (~o.ok /\ t = g)
 C06_bounded(t, h2) == h2.noprog <= 2 * t.n
 
 (* C11 - offered actions fit the situation and do what they say             *)
